@@ -111,9 +111,33 @@ Definition float_unimpl (name : str) : fl -> option fl :=
   end.
 
 Definition s_sqr : str := [115; 113; 114].
+(* the functions the correspondence run registers on copies of the float example through every registration API
+   (harness/c19.go c19AddFunctions), each looking at ALL the arguments it is given:
+   sum / sum3 (AddGoFunction: s := 0; s += x for every argument), max (greatest argument, an error without one),
+   cnt (AddStaticFunction, variadic: Stack.Size), avg2 ((x + y) / 2), half (AddSimpleFunction: x / 2) *)
+Definition fl_sum (l : list fl) : option fl :=
+  fold_left (fun acc x => match acc with Some s => chk2 fl_add s x | None => None end) l (Some fl_zero).
+Definition fl_max (l : list fl) : option fl :=
+  match l with
+  | [] => None
+  | x :: r => Some (fold_left (fun m y => if fl_ltb m y then y else m) r x)
+  end.
+Definition fl_two : fl := FFin 1 1.
+
 Definition float_fnimpl (name : str) : list fl -> option fl :=
-  if str_eqb name s_sqr then (fun l => match l with [x] => fl_mul x x | _ => None end)
-  else fun _ => None.                                        (* sin cos tan exp ln sqrt: transcendental *)
+  match name with
+  | [115; 113; 114] => fun l => match l with [x] => fl_mul x x | _ => None end          (* sqr *)
+  | [115; 117; 109] | [115; 117; 109; 51] => fl_sum                                      (* sum, sum3 *)
+  | [109; 97; 120] => fl_max                                                             (* max *)
+  | [99; 110; 116] => fun l => mkfl (Z.of_nat (length l)) 0                              (* cnt *)
+  | [97; 118; 103; 50] =>                                                                (* avg2 *)
+      fun l => match l with
+               | [x; y] => match chk2 fl_add x y with Some s => chk2 fl_div s fl_two | None => None end
+               | _ => None
+               end
+  | [104; 97; 108; 102] => fun l => match l with [x] => chk2 fl_div x fl_two | _ => None end   (* half *)
+  | _ => fun _ => None                                       (* sin cos tan exp ln sqrt: transcendental *)
+  end.
 
 (* strconv.ParseFloat on the images the tokenizer's number matcher accepts, for decimal images whose value is
    a dyadic rational (digits, optionally a point and digits); everything else is outside the model *)
@@ -158,10 +182,15 @@ Definition float_cfg : gcfg fl :=
 
 Definition float_args : list str := [[97]; [98]].
 
-(* the float table with another set of prefix operators (registration order) *)
-Definition float_var_cfg (unary : list str) : gcfg fl :=
-  mkG (g_ops fl float_cfg) (map float_unop unary) (g_consts fl float_cfg) (g_funcs fl float_cfg)
-      (g_tobool fl float_cfg) (g_num fl float_cfg).
+(* a ToBool that accepts only 0 and 1: every other value is "not a boolean" (ok = false) *)
+Definition strict_tobool (c : fl) : option bool :=
+  if is_zero c then Some false else if fl_eqb c (FFin 1 0) then Some true else None.
+
+(* the float table with another set of prefix operators (registration order), the functions of the variants
+   (arity and purity regenerated: ex_var_funcs) and, if [strict], the strict ToBool *)
+Definition float_var_cfg (unary : list str) (strict : bool) : gcfg fl :=
+  mkG (g_ops fl float_cfg) (map float_unop unary) (g_consts fl float_cfg) (map float_fn ex_var_funcs)
+      (if strict then Some strict_tobool else g_tobool fl float_cfg) (g_num fl float_cfg).
 
 (* Parser.Parse stores for every prefix operator the position of the binary operator of the same spelling
    (unaryEntry.opPos, -1 = none); the parser model computes it at each use ([op_pos] in Syn/Parse.v parse_unary).
